@@ -275,4 +275,4 @@ def sample_view(case):
 def parts(tier):
     quick = tier == "quick"
     return [HypPart(name="open", check=check, strategy=_case,
-                    examples=30 if quick else 700, seconds=50 if quick else 700)]
+                    examples=30 if quick else 700, seconds=50 if quick else 600)]
